@@ -472,7 +472,7 @@ func c15Replay(env *Env) {
 		fail := func(assert, detail string) {
 			bad = true
 			if !lim.admit(assert) {
-				c15Tally(env, "suppressed." + assert)
+				c15Tally(env, "suppressed."+assert)
 				return
 			}
 			env.fail(assert, cls, fmt.Sprintf("%s: query %s references %v taxa %v", detail, q, c15Strs(refs), c.Taxa), c)
@@ -522,7 +522,7 @@ func c15Replay(env *Env) {
 					fail("C15.closest.best_set", fmt.Sprintf("%s.FindClosests (%s) answers references %v at distance %d; the references at that distance are %v (0-based)", fn, ord, a.best, a.maxe, want))
 				default:
 					env.ok("closest." + fn + "." + ord)
-					c15Tally(env, "closest.cls." + c.Cls)
+					c15Tally(env, "closest.cls."+c.Cls)
 				}
 			}
 			// the index of every reference
@@ -562,7 +562,7 @@ func c15Replay(env *Env) {
 				}
 				if okEntries && okLookup {
 					env.ok("index." + ord)
-					c15Tally(env, "index.cls." + c.Cls)
+					c15Tally(env, "index.cls."+c.Cls)
 					if len(pairs) > 1 {
 						c15Tally(env, "index.several_entries")
 					}
@@ -606,7 +606,7 @@ func c15Replay(env *Env) {
 			}
 		}
 		if !bad {
-			c15Tally(env, "case." + c.Suite)
+			c15Tally(env, "case."+c.Suite)
 			if ci%997 == 0 {
 				env.sample(map[string]any{"query": string(q), "references": c15Strs(refs), "taxa": c.Taxa, "distance": c.D, "best": c.Best, "assigned": c.Assigned, "cls": c.Cls})
 			}
